@@ -306,6 +306,15 @@ func despillReturns(fn *ssa.Function) {
 			if refs := val.Referrers(); refs != nil {
 				*refs = append(*refs, ret)
 			}
+			if refs := ld.Referrers(); refs != nil {
+				kept := (*refs)[:0]
+				for _, r := range *refs {
+					if r != ssa.Instruction(ret) {
+						kept = append(kept, r)
+					}
+				}
+				*refs = kept
+			}
 		}
 	}
 }
